@@ -29,6 +29,7 @@ LEVEL_TEXT = (
     "a folder set every path from a state mutation of a batch to the next iteration / exit writes a checkpoint; (R7) "
     "restore overwrites counters, arrays and generator state after the constructor call. Fidelity of h5py, pandas, "
     "pickle and json themselves is trusted."
+    ' (R9) a suffix slice `a[-k:]` on the save path needs k proven non-zero (k = 0 selects everything); the SQLite save executes no SELECT / UPDATE (whole-row replacement only).'
 )
 TECHNIQUE = "composition of extracted positional/keyword/key maps + writer/reader table agreement + attribute-type reachability + CFG must-pass-through"
 
